@@ -7,7 +7,7 @@ class VParseError(Exception):
     pass
 
 TOKEN_RE = re.compile(r"""
-    (?P<ws>\s+) | (?P<lc>//[^\n]*) | (?P<attr>\(\*(?!\s*\)).*?\*\)) |
+    (?P<ws>\s+) | (?P<lc>//[^\n]*) | (?P<bc>/\*.*?\*/) | (?P<attr>\(\*(?!\s*\)).*?\*\)) |
     (?P<sized>\d+\s*'\s*[sS]?[bBdDhHoO]\s*[0-9a-fA-FxXzZ_?]+) |
     (?P<num>\d+) |
     (?P<id>[\$A-Za-z_][A-Za-z0-9_\$]*) |
@@ -28,7 +28,7 @@ def tokenize(text):
             raise VParseError('cannot tokenize at %r' % text[pos:pos + 30])
         pos = m.end()
         k = m.lastgroup
-        if k in ('ws', 'lc', 'attr'): continue
+        if k in ('ws', 'lc', 'bc', 'attr'): continue
         t = m.group(k)
         if k == 'sized': t = re.sub(r'\s+', '', t)
         toks.append((k, t))
@@ -421,7 +421,7 @@ def cq_design(mods):
             k = it[0]
             if k == 'wire': its.append('IWire %s %s' % (cq_str(it[2]), cq_z(rng_width(it[1]))))
             elif k == 'reg': its.append('IReg %s %s %s' % (cq_str(it[2]), cq_z(rng_width(it[1])), 'None' if it[3] is None else '(Some %s)' % cq_z(it[3])))
-            elif k == 'mem': its.append('IMem %s %s %s' % (cq_str(it[2]), cq_z(rng_width(it[1])), cq_z(it[4] - it[3] + 1)))
+            elif k == 'mem': its.append('IMem %s %s %s' % (cq_str(it[2]), cq_z(rng_width(it[1])), cq_z(abs(it[4] - it[3]) + 1)))
             elif k == 'integer': its.append('IInteger %s' % cq_str(it[1]))
             elif k == 'assign': its.append('IAssign %s %s' % (cq_lval(it[1]), cq_expr(it[2])))
             elif k == 'always':
